@@ -14,12 +14,18 @@ Inductive hstep (a : gact) (es : list event) (h : nat) (hd hd' : handler) : Prop
 | HItem : a = GItem h -> h_items hd <> [] ->
     ((h_answer hd' = h_answer hd /\ es = []) \/
      (h_answer hd = None /\ h_answer hd' = Some false /\ es = [EAnswer h (reqs_of (h_subs hd)) false])) ->
+    (* a chunk: its sub-requests are appended to `promises`; an error response: the rest is dropped *)
+    ((exists c rest att, h_items hd = IChunk c :: rest /\ h_items hd' = rest /\ h_subs hd' = h_subs hd ++ map (mk_sub att) c /\
+                         h_answer hd' = h_answer hd) \/
+     (exists rest, h_items hd = IError :: rest /\ h_items hd' = [] /\ h_subs hd' = h_subs hd /\ h_answer hd' <> None)) ->
     hstep a es h hd hd'
 | HSubReq i s sp sp' : a = GSubReq h i s -> nth_error (h_subs hd) i = Some sp -> sp_result sp = None ->
     hd' = {| h_items := h_items hd; h_subs := upd i sp' (h_subs hd); h_answer := h_answer hd |} -> answered es = [] ->
+    sp_kind sp' = sp_kind sp /\ sp_req sp' = sp_req sp ->
     hstep a es h hd hd'
 | HSubGet i sp sp' k : a = GSubGet h i -> nth_error (h_subs hd) i = Some sp -> sp_cur sp = Some k ->
     hd' = {| h_items := h_items hd; h_subs := upd i sp' (h_subs hd); h_answer := h_answer hd |} -> es = [] ->
+    sp_kind sp' = sp_kind sp /\ sp_req sp' = sp_req sp ->
     hstep a es h hd hd'
 | HAnswer ok : a = GAnswer h -> h_items hd = [] -> h_answer hd = None -> verdict (h_subs hd) = Some ok ->
     hd' = {| h_items := []; h_subs := h_subs hd; h_answer := Some ok |} -> es = [EAnswer h (reqs_of (h_subs hd)) ok] ->
@@ -38,17 +44,17 @@ Proof.
   - destruct (nth_error (hs g) h) as [hd|] eqn:Hh; [|discriminate]. right. right.
     destruct (h_items hd) as [|[c|] rest] eqn:Hit; [discriminate| |].
     + inversion Hstep; subst. eexists h, hd, _. split; [exact Hh|]. split; [reflexivity|].
-      apply HItem; [reflexivity|congruence|left; split; reflexivity].
+      apply HItem; [reflexivity|congruence|left; split; reflexivity|]. left. exists c, rest, (attempts g). cbn. auto.
     + destruct (h_answer hd) eqn:Ha; inversion Hstep; subst; eexists h, hd, _; (split; [exact Hh|]); (split; [reflexivity|]).
-      * apply HItem; [reflexivity|congruence|left; cbn; split; congruence].
-      * apply HItem; [reflexivity|congruence|right; cbn; auto].
+      * apply HItem; [reflexivity|congruence|left; cbn; split; congruence|]. right. exists rest. cbn. repeat split; congruence.
+      * apply HItem; [reflexivity|congruence|right; cbn; auto|]. right. exists rest. cbn. repeat split; congruence.
   - destruct (nth_error (hs g) h) as [hd|] eqn:Hh; [|discriminate].
     destruct (nth_error (h_subs hd) i) as [sp|] eqn:Hi; [|discriminate].
     destruct (is_none (sp_result sp) && is_none (sp_cur sp) && N.ltb (sp_used sp) (attempts g) && may_take g s sp) eqn:Hg; [|discriminate].
     destruct (svc_act g s _) as [[g1 es1]|] eqn:Hact; [|discriminate]. inversion Hstep; subst; clear Hstep.
     destruct (svc_act_props _ _ _ _ _ Hact) as (Eh & _ & _ & A & _). right. right. cbn. rewrite Eh.
     eexists h, hd, _. split; [exact Hh|]. split; [reflexivity|].
-    eapply HSubReq; [reflexivity|exact Hi| |reflexivity|exact A].
+    eapply HSubReq; [reflexivity|exact Hi| |reflexivity|exact A|split; reflexivity].
     apply andb_true_iff in Hg as [Hg _]. apply andb_true_iff in Hg as [Hg _]. apply andb_true_iff in Hg as [Hg _].
     destruct (sp_result sp); [discriminate|reflexivity].
   - destruct (nth_error (hs g) h) as [hd|] eqn:Hh; [|discriminate].
@@ -56,7 +62,7 @@ Proof.
     destruct (sp_cur sp) as [k|] eqn:Hcur; [|discriminate].
     destruct (lookup_store (PSub h i k) (store g)) as [[[k0 r0] ok]|] eqn:Hl; [|discriminate].
     inversion Hstep; subst; clear Hstep. right. right. eexists h, hd, _. split; [exact Hh|]. split; [reflexivity|].
-    eapply HSubGet; [reflexivity|exact Hi|exact Hcur|reflexivity|reflexivity].
+    eapply HSubGet; [reflexivity|exact Hi|exact Hcur|reflexivity|reflexivity|split; reflexivity].
   - destruct (nth_error (hs g) h) as [hd|] eqn:Hh; [|discriminate].
     destruct (h_items hd) eqn:Hit; [|discriminate]. destruct (h_answer hd) eqn:Ha; [discriminate|].
     destruct (verdict (h_subs hd)) as [ok|] eqn:Hv; [|discriminate]. inversion Hstep; subst.
@@ -72,7 +78,7 @@ Qed.
 (* an answer, once written, stays *)
 Lemma hstep_answer_stable a es h hd hd' b : hstep a es h hd hd' -> h_answer hd = Some b -> h_answer hd' = Some b.
 Proof.
-  intros S Hb. destruct S as [_ _ [[E _]|(E & _)]|? ? ? ? _ _ _ -> _|? ? ? ? _ _ _ -> _|ok _ _ E _ _ _]; cbn; congruence.
+  intros S Hb. destruct S as [_ _ [[E _]|(E & _)] _|? ? ? ? _ _ _ -> _ _|? ? ? ? _ _ _ -> _ _|ok _ _ E _ _ _]; cbn; congruence.
 Qed.
 Lemma answer_stable g a g' es h hd b : gstep g a = Some (g', es) -> nth_error (hs g) h = Some hd -> h_answer hd = Some b ->
   exists hd', nth_error (hs g') h = Some hd' /\ h_answer hd' = Some b.
@@ -93,7 +99,7 @@ Proof.
   - apply in_answered in Hin. rewrite A in Hin. destruct Hin.
   - destruct Hin.
   - assert (L : (h1 < length (hs g))%nat) by (eapply nth_error_some_lt; eauto).
-    destruct S as [_ _ [[_ ->]|(_ & E' & ->)]|? ? ? ? _ _ _ _ A|? ? ? ? _ _ _ _ ->|ok _ _ _ _ -> ->].
+    destruct S as [_ _ [[_ ->]|(_ & E' & ->)] _|? ? ? ? _ _ _ _ A _|? ? ? ? _ _ _ _ -> _|ok _ _ _ _ -> ->].
     + destruct Hin.
     + destruct Hin as [X|[]]. inversion X; subst. exists hd1'. rewrite E, nth_error_upd_same by assumption. auto.
     + apply in_answered in Hin. rewrite A in Hin. destruct Hin.
@@ -114,7 +120,7 @@ Lemma won_step g a es h hd hd' : InvE g -> nth_error (hs g) h = Some hd -> hstep
   a = GAnswer h /\ hd' = {| h_items := []; h_subs := h_subs hd; h_answer := Some true |} /\ h_answer hd = None.
 Proof.
   intros HI Hh S [Wi Ws]. destruct (HI _ _ Hh) as [_ B].
-  destruct S as [_ Hne _|i s sp sp' _ Hi Hr _ _|i sp sp' k _ Hi Hc _ _|ok -> _ Ha Hv -> _].
+  destruct S as [_ Hne _ _|i s sp sp' _ Hi Hr _ _ _|i sp sp' k _ Hi Hc _ _ _|ok -> _ Ha Hv -> _].
   - contradiction.
   - apply nth_error_In in Hi. rewrite (Ws _ Hi) in Hr. discriminate.
   - destruct (B _ _ Hi) as [B1 _]. apply nth_error_In in Hi. rewrite B1 in Hc by (rewrite (Ws _ Hi); discriminate). discriminate.
@@ -153,7 +159,7 @@ Proof.
            eexists. rewrite nth_error_upd_same by assumption. split; [reflexivity|]. split; [split; [reflexivity|exact (proj2 W)]|discriminate].
         -- exists hd. rewrite nth_error_upd_other by assumption. auto.
       * intros h hd Hh Ha. apply nth_error_upd_cases in Hh as [[-> ->]|[Hne Hh]]; [|eauto].
-        destruct S as [_ _ [[Ea _]|(_ & Ea & _)]|? ? ? ? _ _ _ -> _|? ? ? ? _ _ _ -> _|ok -> Hit Hna Hv -> _]; cbn in Ha.
+        destruct S as [_ _ [[Ea _]|(_ & Ea & _)] _|? ? ? ? _ _ _ -> _ _|? ? ? ? _ _ _ -> _ _|ok -> Hit Hna Hv -> _]; cbn in Ha.
         -- rewrite Ea in Ha. eauto.
         -- congruence.
         -- eauto.
